@@ -535,8 +535,8 @@ def _vendor_qubits(case):
         qs = [cirq.NamedQubit(f"q{i}") for i in range(nq)]
         off = [cirq.NamedQubit(f"off{i}") for i in range(n_off)] if case.get("off_kind") == "named" else [cirq.LineQubit(i) for i in range(n_off)]
         return qs, off
-    pts = [tuple(p) for p in case["pts"]] + [(9 + i, 9) for i in range(nq + n_off)]
-    mk = {"two_d": lambda p: cirq_pasqal.TwoDQubit(p[0], p[1]), "three_d": lambda p: cirq_pasqal.ThreeDQubit(p[0], p[1], 0),
+    pts = [tuple(p) + (0,) * (3 - len(p)) for p in case["pts"]] + [(9 + i, 9, 0) for i in range(nq + n_off)]
+    mk = {"two_d": lambda p: cirq_pasqal.TwoDQubit(p[0], p[1]), "three_d": lambda p: cirq_pasqal.ThreeDQubit(p[0], p[1], p[2]),
           "grid": lambda p: cirq.GridQubit(p[0], p[1]), "line": lambda p: cirq.LineQubit(p[0] * 3 + p[1])}[case["qkind"]]
     allq = [mk(p) for p in pts[: nq + n_off]]
     qs, off = allq[:nq], allq[nq:]
@@ -546,10 +546,17 @@ def _vendor_qubits(case):
 
 
 def _pos(case, i):
-    p = case["pts"][i]
+    """3-d position of device qubit i (reference geometry, independent of the device's distance())."""
+    p = tuple(case["pts"][i]) + (0,) * (3 - len(case["pts"][i]))
     if case["qkind"] == "line":
-        return (p[0] * 3 + p[1], 0)
-    return (p[0], p[1])
+        return (p[0] * 3 + p[1], 0, 0)
+    if case["qkind"] == "three_d":
+        return (p[0], p[1], p[2])
+    return (p[0], p[1], 0)
+
+
+def _dist3(a, b):
+    return float(np.sqrt((a[0] - b[0]) ** 2 + (a[1] - b[1]) ** 2 + (a[2] - b[2]) ** 2))
 
 
 def oracle_device_vendor(case):
@@ -573,7 +580,7 @@ def oracle_device_vendor(case):
     else:
         radius = float(case["radius"])
         pos = [_pos(case, i) for i in range(nq)]
-        dmin = min((np.hypot(a[0] - b[0], a[1] - b[1]) for i, a in enumerate(pos) for b in pos[i + 1:]), default=None)
+        dmin = min((_dist3(a, b) for i, a in enumerate(pos) for b in pos[i + 1:]), default=None)
         try:
             dev = cirq_pasqal.PasqalVirtualDevice(control_radius=radius, qubits=qs)
         except ValueError:
@@ -598,7 +605,10 @@ def oracle_device_vendor(case):
             ok, why = False, "qubit"
         elif kind == "pasqal_virtual" and key in R.PASQAL_CONTROLLED:
             a, b = _pos(case, w[0]), _pos(case, w[1])
-            if np.hypot(a[0] - b[0], a[1] - b[1]) > radius + 1e-12:
+            planar = float(np.hypot(a[0] - b[0], a[1] - b[1]))
+            if (planar > radius + 1e-12) != (_dist3(a, b) > radius + 1e-12):
+                reasons["planar_vs_3d_disagree"] += 1
+            if _dist3(a, b) > radius + 1e-12:
                 ok, why = False, "distance"
         if kind.startswith("pasqal") and key == "MEAS_INV" and ok:
             # documented: NotImplementedError for measurements with an invert mask
@@ -641,7 +651,7 @@ def oracle_device_vendor(case):
         _expect(dev.validate_circuit, c, all_ok, why, f"{name}.validate_circuit")
         reasons["circ_" + why] += 1
     return {"nontrivial": acc > 0 and rej > 0, "accepted_ops": acc, "rejected_ops": rej, "kind": kind, "rej_gate": reasons["gate"] > 0,
-            "rej_qubit": reasons["qubit"] > 0, "rej_distance": reasons["distance"] > 0, "acc_any": acc > 0,
+            "rej_qubit": reasons["qubit"] > 0, "rej_distance": reasons["distance"] > 0, "planar_vs_3d_disagree": reasons["planar_vs_3d_disagree"] > 0, "acc_any": acc > 0,
             "circ_rule": any(k.startswith("circ_") and k != "circ_operations" for k in reasons)}
 
 
@@ -701,5 +711,5 @@ SUBCHECKS = [
     SubCheck("device_grid", CG.grid_device_cases(), oracle_device_grid, quick=1200, thorough=30000, shards_quick=2, shards_thorough=8,
              essential={"nontrivial": 0.5, "rej_pair": 0.3, "rej_qubit": 0.15}, doc="GridDevice validate_* iff reference predicate"),
     SubCheck("device_vendor", CG.vendor_device_cases(), oracle_device_vendor, quick=2000, thorough=40000, shards_quick=2, shards_thorough=8,
-             essential={"nontrivial": 0.5, "rej_qubit": 0.2}, doc="IonQAPIDevice / AQTDevice / PasqalDevice / PasqalVirtualDevice validate_* iff predicate"),
+             essential={"nontrivial": 0.5, "rej_qubit": 0.2, "rej_distance": 0.05, "planar_vs_3d_disagree": 0.02}, doc="IonQAPIDevice / AQTDevice / PasqalDevice / PasqalVirtualDevice validate_* iff predicate"),
 ]
